@@ -153,9 +153,9 @@ def gen_mesh_diamond(rng, name):
         links.setdefault(t, []).append(f"[{k}]={a * 100 + b}")
         if rng.random() < 0.5:
             t += rng.choice([0, 1, 2])
-    for t2 in sorted(rng.sample(range(2, end), rng.choice([2, 4, 6]))):
-        k = rng.choice(keys[1:])
-        links.setdefault(t2, []).append(f"[{k}]={rng.randrange(1, k) * 100 + rng.randrange(1, k)}")
+    # (links are established in the first cycles and then stay: what the ranks look like in the cycles AFTER an established
+    # dependency is re-pointed is the recorded finding F28 - kept visible by a constructed witness - and the constructed
+    # re-rank diamonds below cover "a root gains a dependency later")
     c.cscripts[1] = [f"{t}|" + ",".join(dict.fromkeys(ops)) for t, ops in sorted(vals.items())]
     c.cscripts[2] = [f"{t}|" + ",".join(dict.fromkeys(ops)) for t, ops in sorted(links.items())]
     c.graphs["fn0"] = [S("e", "pass", "p0", uid=100), S("l", "pass", "p1", uid=103), S("la", "hi100", "l"), S("lb", "lo100", "l"),
@@ -182,8 +182,39 @@ def mesh_diamond_rerank_case(name, rng):
     return c
 
 
+MECH_F28 = "mesh-rank-order-stale-after-relink"
+
+
+def mesh_f28_witness(name):
+    """Witness of F28 (found by the thorough tier, seed 6): key 3 is re-pointed at t=12 (it now reads key 2); in the next cycle
+    only key 2 ticks, keys 4, 5 and 6 become due together - and key 5 (reads 4) and key 6 (reads 5) run before key 4."""
+    import random
+    c = gen_mesh_diamond(random.Random(0), name)
+    c.end = 16
+    c.cscripts[1] = ["0|[1]=10,[2]=20,[3]=30,[4]=40,[5]=50,[6]=60", "3|[1]=10,[6]=67", "4|[1]=12", "6|[6]=66", "7|[4]=45,[3]=32", "8|[6]=61,[3]=35,[1]=10",
+                     "12|[6]=63,[4]=45,[3]=38", "13|[2]=22", "15|[1]=10"]
+    c.cscripts[2] = ["0|[2]=101,[5]=202,[3]=101,[6]=305,[4]=103", "5|[5]=403", "10|[4]=301", "12|[3]=202"]
+    c.meta["mesh_witness"] = "F28"
+    return c
+
+
 def check_mesh_diamond(case, tr, res):
     run = tr.runs[0]
+    if case.meta.get("mesh_witness") == "F28":
+        if run.error:
+            res.violations.append(Violation(f"witness F28 did not run: {run.error[:200]}"))
+            return res
+        key_of = {}
+        for ue in run.uevals():
+            if ue.uid == 100 and ue.gid not in key_of and ue.out is not None:
+                key_of[ue.gid] = ue.out // 10
+        order = [key_of.get(ue.gid) for ue in run.uevals() if ue.t == 13 and ue.uid == 106]
+        if 4 in order and 5 in order and order.index(5) < order.index(4):
+            res.violations.append(Violation(f"mesh instances evaluated in the order {order} at t=13: key 5 (reads key 4) and key 6 (reads key 5) ran before "
+                                            f"key 4 although all three became due together - the rank order is stale after key 3 was re-pointed at t=12",
+                                            MECH_F28))
+        res.counters = {"witness_cases": 1}
+        return res
     if run.error and "failed_to_settle" in run.error:
         res.counters = {"mesh_runs_failed_to_settle": 1}
         return res
@@ -352,6 +383,7 @@ def generate(rng, tier, seed):
         cases.append(gen_mesh_diamond(rng, f"c01_{seed}_md{k}"))
     for k in range(4):
         cases.append(mesh_diamond_rerank_case(f"c01_{seed}_mdr{k}", rng))
+    cases.append(mesh_f28_witness(f"c01_{seed}_witnessF28"))
     kinds = ["delayed", "rank", "rank2", "control"]
     for k in range(n // 5):
         cases.append(make_cyclic(rng, f"c01_{seed}_cyc{k}", kinds[k % len(kinds)]))
